@@ -504,16 +504,20 @@ where
         // y at the threshold of the sign flag (a = 0: x is a cube root of y^2 - b)
         if !enumerate && a.is_zero() {
             let mut found = 0;
-            for y in sign_threshold_elems::<P::BaseField>() {
-                if found >= 6 {
-                    break;
+            let mut cands: Vec<(P::BaseField, &'static str)> = sign_threshold_elems::<P::BaseField>().into_iter().map(|y| (y, "y-at-sign-threshold")).collect();
+            cands.extend(single_coefficient_elems::<P::BaseField>().into_iter().map(|y| (y, "y-with-one-non-zero-coefficient")));
+            let mut found_single = 0;
+            for (y, label) in cands {
+                let cnt = if label == "y-at-sign-threshold" { &mut found } else { &mut found_single };
+                if *cnt >= 6 {
+                    continue;
                 }
                 if let Some(x) = cube_root(&(y.square() - b)) {
                     let q = Sw::Aff(x, y);
                     if sw_on_curve(&a, &b, &q) {
                         let insub = cof1 || ref_mul(&sw_to_proj::<P>(&q, &P::BaseField::one(), &P::BaseField::one(), &P::BaseField::one()), &r).is_zero();
-                        special.push((q, insub, "y-at-sign-threshold"));
-                        found += 1;
+                        special.push((q, insub, label));
+                        *cnt += 1;
                     }
                 }
             }
@@ -608,6 +612,24 @@ fn cube_root<F: Field>(w: &F) -> Option<F> {
     } else {
         None
     }
+}
+
+/// extension-field elements with exactly one non-zero coefficient (y purely "imaginary", y in the prime subfield, ...):
+/// y^2 then lies in a proper subfield, which is where square-root routines branch
+fn single_coefficient_elems<F: Field>() -> Vec<F> {
+    let d = F::extension_degree() as usize;
+    let mut out = Vec::new();
+    if d == 1 {
+        return out;
+    }
+    for m in 1u64..12 {
+        for pos in (0..d).rev() {
+            let mut cs = vec![F::BasePrimeField::zero(); d];
+            cs[pos] = F::BasePrimeField::from(m);
+            out.push(F::from_base_prime_field_elems(cs).unwrap());
+        }
+    }
+    out
 }
 
 /// elements at the threshold of the "is y (x) the larger of the two roots" flag: the most significant non-zero
@@ -1191,7 +1213,7 @@ fn relations(tier: Tier) -> Vec<Rel> {
 fn main() {
     vh_core::engine::main(PropSpec {
         id: "C09",
-        rule: "Field values come from the edge-biased tower generator (0, 1, p-1, (p±1)/2, R, 2^k±1, edge limbs, uniform; sparse/dense extension elements) over 32 zoo prime fields (0..7 spare bits in the top byte, 1..13 limbs, ten moduli of exactly 8k bits), 14 towers (two harness Fp2 over moduli without spare bits) and are (de)serialized with EmptyFlags, SWFlags, TEFlags, harness flags of 1..8 bits and a restrictive 3-bit flag type. Curve points: identity, generator, sums of multiples of G, points decompressed from edge x (resp. y), points whose y (SW, a = 0: x is a cube root of y^2 - b computed by the harness) resp. x (TE) has its most significant non-zero coefficient equal to (p-1)/2 or (p+1)/2 (the threshold of the sign flag), x=0 / y=0 / 2-torsion / out-of-subgroup points, affine and projective with Z != 1, on 32 shipped SW and 10 shipped TE configurations plus the 4 SWU-isogenous helper curves of bls12_381 / bls12_377 (WBConfig::IsogenousCurve) and test-curves' secp256k1 and ed_on_bls12_381; every point of 11+7 toy curves over prime fields (incl. the 8-bit prime 251, whose flags need an extra byte) and of 4 toy curves over F_49 / F_343 x 3 representations exhaustively. Uniqueness inputs are derived from an encoding produced by the harness' own encoder: + k p, exactly p, one unused high bit, stray bits in the extra flag byte, invalid flag pattern, bit flip, uniform bytes. Every field value and every point (affine and projective) is additionally sent through the convenience spellings (serialize_compressed/_uncompressed, compressed_size/uncompressed_size, deserialize_compressed/_unchecked, deserialize_uncompressed/_unchecked: round trip, validating spellings only for subgroup points), into a fixed &mut [u8] of exactly serialized_size bytes (must succeed and be filled), into a writer that accepts only k bytes per write call (same bytes) and back through a reader that delivers only k bytes per read call followed by unrelated bytes (same value, exactly the encoding consumed); the four chunk sizes k come from a tape word (1,2,3,5,7,8,9,17; word 0 = 1 byte per call). Oracles: decode(encode(v)) == v through raw coordinates in all four modes (checked modes only for points known to be in the subgroup), len == serialized_size == (un)compressed_size, flags returned; Ok((v,f)) => serialize_with_flags(v,f) == input byte for byte. Non-trivial: value not in {0, 1, identity, generator}, or an input that differs from the valid encoding; distinct = distinct decoded choice sequences.",
+        rule: "Field values come from the edge-biased tower generator (0, 1, p-1, (p±1)/2, R, 2^k±1, edge limbs, uniform; sparse/dense extension elements) over 32 zoo prime fields (0..7 spare bits in the top byte, 1..13 limbs, ten moduli of exactly 8k bits), 14 towers (two harness Fp2 over moduli without spare bits) and are (de)serialized with EmptyFlags, SWFlags, TEFlags, harness flags of 1..8 bits and a restrictive 3-bit flag type. Curve points: identity, generator, sums of multiples of G, points decompressed from edge x (resp. y), points whose y (SW, a = 0: x is a cube root of y^2 - b computed by the harness) resp. x (TE) has its most significant non-zero coefficient equal to (p-1)/2 or (p+1)/2 (the threshold of the sign flag), points whose y has exactly one non-zero coefficient (y^2 in a proper subfield), x=0 / y=0 / 2-torsion / out-of-subgroup points, affine and projective with Z != 1, on 32 shipped SW and 10 shipped TE configurations plus the 4 SWU-isogenous helper curves of bls12_381 / bls12_377 (WBConfig::IsogenousCurve) and test-curves' secp256k1 and ed_on_bls12_381; every point of 11+7 toy curves over prime fields (incl. the 8-bit prime 251, whose flags need an extra byte) and of 4 toy curves over F_49 / F_343 x 3 representations exhaustively. Uniqueness inputs are derived from an encoding produced by the harness' own encoder: + k p, exactly p, one unused high bit, stray bits in the extra flag byte, invalid flag pattern, bit flip, uniform bytes. Every field value and every point (affine and projective) is additionally sent through the convenience spellings (serialize_compressed/_uncompressed, compressed_size/uncompressed_size, deserialize_compressed/_unchecked, deserialize_uncompressed/_unchecked: round trip, validating spellings only for subgroup points), into a fixed &mut [u8] of exactly serialized_size bytes (must succeed and be filled), into a writer that accepts only k bytes per write call (same bytes) and back through a reader that delivers only k bytes per read call followed by unrelated bytes (same value, exactly the encoding consumed); the four chunk sizes k come from a tape word (1,2,3,5,7,8,9,17; word 0 = 1 byte per call). Oracles: decode(encode(v)) == v through raw coordinates in all four modes (checked modes only for points known to be in the subgroup), len == serialized_size == (un)compressed_size, flags returned; Ok((v,f)) => serialize_with_flags(v,f) == input byte for byte. Non-trivial: value not in {0, 1, identity, generator}, or an input that differs from the valid encoding; distinct = distinct decoded choice sequences.",
         assumptions: &[
             "the byte layout used to build mutated inputs (little-endian coefficients of ceil(bits/8) bytes, the last one of ceil((bits+flag bits)/8) bytes with the flags in its top bits) is the documented one; a mismatch with serialized_size_with_flags is reported as size.layout",
             "points used in checked modes are multiples of the generator computed with a reference double-and-add over Projective::double_in_place/+= (C03's subject)",
